@@ -1927,3 +1927,57 @@ async fn d47_l0_stall_is_never_lifted_when_another_level_scores_higher() {
 	let _ = tokio::time::timeout(std::time::Duration::from_secs(10), tree.close()).await;
 	assert!(!stalled, "D47: commit() still stalled on the L0 file count after 5 s; nothing will ever compact L0");
 }
+
+// D48: the block cache hangs off `Options` as an Arc and is keyed by (kind, table id / vlog file id, offset).  Opening a
+// checkpoint directory as a database next to the live store with cloned options (the natural way to do it) makes both
+// stores share one cache while each issues table ids from its own counter: a read in the checkpoint store is answered
+// with a block of the live store's table of the same number -- data that was never in the checkpoint.
+#[tokio::test(flavor = "multi_thread")]
+async fn d48_checkpoint_opened_next_to_the_live_store_reads_the_live_stores_blocks() {
+	let d = td();
+	let cp = td();
+	let opts = mk_opts(d.path().to_path_buf(), |_| {});
+	let live = Tree::new(Arc::clone(&opts)).unwrap();
+	put(&live, b"k", b"v1").await;
+	live.flush().unwrap(); // table 1
+	live.create_checkpoint(cp.path()).unwrap();
+	// the live store moves on: a second table, read once (its blocks are cached now)
+	put(&live, b"k", b"v2-after-the-checkpoint").await;
+	live.flush().unwrap();
+	assert_eq!(live.begin().unwrap().get(b"k").unwrap().as_deref(), Some(&b"v2-after-the-checkpoint"[..]));
+
+	// the checkpoint directory opened as a database of its own, same options except for the path
+	let mut o2 = (*opts).clone();
+	o2.path = cp.path().to_path_buf();
+	let snap = Tree::new(Arc::new(o2)).unwrap();
+	assert_eq!(snap.begin().unwrap().get(b"k").unwrap().as_deref(), Some(&b"v1"[..]), "precondition: the checkpoint holds v1");
+	// it writes two unrelated keys around `k` and flushes: ITS second table
+	put(&snap, b"a", b"x").await;
+	put(&snap, b"z", b"x").await;
+	snap.flush().unwrap();
+	let mut got = vec![];
+	{
+		let tx = snap.begin().unwrap();
+		let mut it = tx.range(&b"a"[..], &b"zz"[..]).unwrap();
+		let mut ok = it.seek_first().unwrap();
+		while ok {
+			got.push((String::from_utf8_lossy(it.key().user_key()).to_string(), String::from_utf8_lossy(&it.value().unwrap()).to_string()));
+			ok = it.next().unwrap();
+		}
+	}
+	let point = snap.begin().unwrap().get(b"a").unwrap().map(|v| String::from_utf8_lossy(&v).to_string());
+	println!("D48 checkpoint store scan: {got:?}; get(a) = {point:?}");
+	for (nm, t) in [("live", &live), ("snap", &snap)] {
+		let m = t.core.level_manifest.read().unwrap();
+		for (li, l) in m.levels.get_levels().iter().enumerate() {
+			for tb in &l.tables {
+				println!("D48 {nm} L{li} table {} size {}", tb.id, tb.file_size);
+			}
+		}
+	}
+	let _ = tokio::time::timeout(std::time::Duration::from_secs(10), snap.close()).await;
+	let _ = tokio::time::timeout(std::time::Duration::from_secs(10), live.close()).await;
+	let want: Vec<(String, String)> = [("a", "x"), ("k", "v1"), ("z", "x")].iter().map(|(k, v)| (k.to_string(), v.to_string())).collect();
+	assert_eq!(got, want, "D48: the checkpoint database answers with blocks cached by the live store");
+	assert_eq!(point.as_deref(), Some("x"), "D48: a point read in the checkpoint database is answered from a block the live store cached under the same (table id, offset)");
+}
